@@ -249,12 +249,13 @@ struct Builder<'a> {
     recursion_used: bool,
 }
 
-const LABEL_STEMS: [&str; 10] = ["L", "Lp", "S_", "Dat", "msg", "K", "node", "Skip", "T_", "_q"];
+const LABEL_STEMS: [&str; 14] = ["L", "Lp", "S_", "Dat", "msg", "K", "node", "Skip", "T_", "_q", "R0_sav", "r7_", "R5__t", "r1_x"];
 
 impl<'a> Builder<'a> {
     fn fresh(&mut self, hint: &str) -> String {
         self.label_counter += 1;
-        let stem = if hint.is_empty() {
+        let stem = if hint.is_empty() || self.rng.chance(1, 10) {
+            // Also names that merely look like registers or integer prefixes
             *self.rng.pick(&LABEL_STEMS)
         } else {
             hint
@@ -829,6 +830,14 @@ fn random_string(rng: &mut Rng) -> (String, usize) {
             4 => {
                 text.push(';');
                 words += 1;
+            }
+            5 if rng.chance(1, 2) => {
+                // A colour escape inside the string: in minimal mode only the ESC itself is
+                // dropped (output is stripped per printed character)
+                for c in "\u{1b}[31mR".chars() {
+                    text.push(c);
+                    words += 1;
+                }
             }
             _ => {
                 let c = loop {
